@@ -179,7 +179,9 @@ class PWalker(Walker):
             self.feat['w%d' % w] += 1
             return list(raws)
         present = [x for x in raws if x is not None]
-        if present and (max(present) - min(present) + 1).bit_length() > 63:
+        if present and (max(present) - min(present) + 2).bit_length() > 63:
+            # (the library sizes the increment for max-min+1 itself, one bit more than needed when that
+            # number is all ones: a spread of 2^63-2 would need its 64th bit - grey, not generated)
             # a spread that needs more than 63 increment bits cannot be written (6-bit width field)
             raws = [None if x is None else present[0] for x in raws]
             present = [x for x in raws if x is not None]
